@@ -120,6 +120,9 @@ def main():
     # what this process is about to write.
     w.normalise()
     tag = os.environ.pop('BFGSIM_TAG', 'backend')
+    repo = os.environ.pop('BFGSIM_REPO', None)
+    if repo:
+        sys.path.insert(0, repo)
     for k in ('PYTHONHASHSEED', 'PYTHONDONTWRITEBYTECODE'):
         os.environ.pop(k, None)
     sys.dont_write_bytecode = True
